@@ -485,6 +485,46 @@ class Check(Property):
                         v.append(f"C06 one registry switched through autoconvert_offset_to_baseunit = {seq[:seq.index(mode) + 1] if mode != first else seq}: "
                                  f"10 {g[0]} {g[1]} gives {g[2]}, a registry built with autoconvert_offset_to_baseunit={mode} gives {w[2]}")
                         break
+        # autoconvert mode, compound -> compound sharing the SAME offset / logarithmic unit with different other factors: the
+        # direct conversion is the one through the reference unit (defining map, the other factors scaled there, and back)
+        import math
+        ra = regs.fresh("float", autoconvert_offset_to_baseunit=True)
+        for val, src_, mid1, mid2, dst_ in ((10.0, {"degree_Celsius": 1, "meter": -1}, "kelvin / meter", "kelvin / kilometer", {"degree_Celsius": 1, "kilometer": -1}),
+                                            (50.0, {"degree_Fahrenheit": 1, "second": 1}, "kelvin * second", "kelvin * millisecond", {"degree_Fahrenheit": 1, "millisecond": 1}),
+                                            (-20.0, {"decibelmilliwatt": 1, "hertz": -1}, "milliwatt / hertz", "milliwatt / kilohertz", {"decibelmilliwatt": 1, "kilohertz": -1})):
+            try:
+                q = ra.Quantity(val, ra.UnitsContainer(src_))
+                direct = q.to(ra.UnitsContainer(dst_)).magnitude
+                steps = q.to(mid1).to(mid2).to(ra.UnitsContainer(dst_)).magnitude
+                back = ra.Quantity(direct, ra.UnitsContainer(dst_)).to(ra.UnitsContainer(src_)).magnitude
+            except Exception:  # noqa: BLE001
+                continue            # refusing is the other documented behaviour
+            if not math.isclose(direct, steps, rel_tol=1e-9, abs_tol=1e-9):
+                v.append(f"C06 autoconvert: {val} {src_} -> {dst_} gives {direct}; through the reference unit ({mid1} -> {mid2}) it is {steps}")
+            elif not math.isclose(back, val, rel_tol=1e-7, abs_tol=1e-7):
+                v.append(f"C06 autoconvert: {val} {src_} -> {dst_} -> back gives {back}")
+        # an offset unit defined a second time (on_redefinition = 'ignore'): the unit AND its delta companion follow the definition
+        # in force - delta converts by the new scale only, differences and offset + delta likewise
+        import pint as _pint
+        for tname in ("float",):
+            rr = _pint.UnitRegistry(on_redefinition="ignore")
+            for n_, (sc, off) in enumerate(((2.0, 10.0), (5.0, 3.0), (0.5, -7.0))):
+                try:
+                    rr.define(f"degX06 = {sc} * kelvin; offset: {off} = dX06")
+                    got = {"1 degX06 -> K": rr.Quantity(1.0, "degX06").to("kelvin").magnitude,
+                           "1 delta_degX06 -> K": rr.Quantity(1.0, "delta_degX06").to("kelvin").magnitude,
+                           "3 degX06 - 1 degX06 -> K": (rr.Quantity(3.0, "degX06") - rr.Quantity(1.0, "degX06")).to("kelvin").magnitude,
+                           "1 degX06 + 1 delta_degX06 -> K": (rr.Quantity(1.0, "degX06") + rr.Quantity(1.0, "delta_degX06")).to("kelvin").magnitude,
+                           "7 K -> delta_degX06": rr.Quantity(7.0, "kelvin").to("delta_degX06").magnitude}
+                    want = {"1 degX06 -> K": sc + off, "1 delta_degX06 -> K": sc, "3 degX06 - 1 degX06 -> K": 2 * sc,
+                            "1 degX06 + 1 delta_degX06 -> K": 2 * sc + off, "7 K -> delta_degX06": 7.0 / sc}
+                except Exception as exc:  # noqa: BLE001
+                    v.append(f"C06 degX06 = {sc} * kelvin; offset: {off} (definition number {n_ + 1}) raised {type(exc).__name__}: {exc}")
+                    continue
+                for k_ in want:
+                    if not math.isclose(got[k_], want[k_], rel_tol=1e-9, abs_tol=1e-9):
+                        v.append(f"C06 degX06 = {sc} * kelvin; offset: {off} (definition number {n_ + 1} of the unit): {k_} gives {got[k_]}, the "
+                                 f"definition in force says {want[k_]}")
         # the difference of two logarithmic quantities: no delta counterpart of a logarithmic unit exists
         r = regs.fresh("float")
         try:
